@@ -215,13 +215,15 @@ func genFile(seed uint64, faulty bool) *Scenario {
 			w.Ops = append(w.Ops, rw)
 			continue
 		}
-		switch g.r.IntN(5) {
+		switch g.r.IntN(6) {
 		case 0:
 			w.Ops = append(w.Ops, Op{K: "sleep", D: int64(g.in(1, 5000)) * 1e6})
 		case 1:
 			w.Ops = append(w.Ops, Op{K: "sleep", D: int64(g.in(1, 20)) * 60e9})
 		case 2:
 			w.Ops = append(w.Ops, Op{K: "await-read"})
+		case 3:
+			w.Ops = append(w.Ops, Op{K: "quiesce", D: int64(g.in(1, 20)) * 60e9})
 		}
 	}
 	if fs.Layout == "k8s" && g.pct(45) {
@@ -232,7 +234,7 @@ func genFile(seed uint64, faulty bool) *Scenario {
 		}
 		// (a long pause first: the watcher has drained every earlier event, so the
 		// swap is followed by exactly one reload)
-		w.Ops = append(w.Ops, Op{K: "sleep", D: int64(g.in(2, 30)) * 60e9}, sw)
+		w.Ops = append(w.Ops, Op{K: "quiesce", D: int64(g.in(2, 30)) * 60e9}, sw)
 		switch g.r.IntN(4) {
 		case 0:
 			w.Ops = append(w.Ops, Op{K: "sleep", D: int64(g.in(1, 5000)) * 1e6})
@@ -244,7 +246,7 @@ func genFile(seed uint64, faulty bool) *Scenario {
 	if fs.Layout == "plain" && g.pct(25) {
 		// end with: new content, then - right behind the watcher's read of it -
 		// delete and recreate the very same bytes
-		w.Ops = append(w.Ops, Op{K: "sleep", D: int64(g.in(2, 30)) * 60e9},
+		w.Ops = append(w.Ops, Op{K: "quiesce", D: int64(g.in(2, 30)) * 60e9},
 			Op{K: []string{"rename", "rewrite"}[g.r.IntN(2)], Part: g.filePart(0), N: 0},
 			Op{K: "await-read"},
 			Op{K: "delete-create", Str: "same", N: g.in(0, 1)})
@@ -413,12 +415,16 @@ func (r *Run) writer(c *ClientSpec) {
 	defer r.debugWatches()
 	for i := range c.Ops {
 		op := &c.Ops[i]
-		if op.K != "sleep" && op.K != "await-read" {
+		if op.K != "sleep" && op.K != "await-read" && op.K != "quiesce" {
 			f.lastOpAt = r.sim.Step()
 		}
 		switch op.K {
 		case "sleep":
 			simrt.Sleep(time.Duration(op.D))
+		case "quiesce":
+			// resume only once the watcher stack has drained everything
+			simrt.SleepIdle(time.Duration(op.D))
+			r.probe("writer-waited-for-quiescence")
 		case "await-read":
 			// pause until the code under test has completed one more read of the
 			// file (or ten simulated minutes have passed): the next operation then
